@@ -211,7 +211,12 @@ func isUntyped(pkg *Package, typ types.Type) bool {
 }
 
 func toChanType(pkg *Package, t *types.Chan) ast.Expr {
-	return &ast.ChanType{Value: toType(pkg, t.Elem()), Dir: chanDirs[t.Dir()]}
+	elem := toType(pkg, t.Elem())
+	if e, ok := elem.(*ast.ChanType); ok && e.Dir == ast.RECV && t.Dir() != types.RecvOnly {
+		// chan (<-chan T) and chan<- (<-chan T): without parentheses the arrow binds to the outer chan
+		elem = &ast.ParenExpr{X: elem}
+	}
+	return &ast.ChanType{Value: elem, Dir: chanDirs[t.Dir()]}
 }
 
 var (
